@@ -205,7 +205,9 @@ pub fn use_path<'t>(ctx: Context<'t>) -> ParseResult<'t, (Identifier, FileOrLib)
         .trim_end_matches("/")
         .to_string();
     let file = {
-        if let Some(name) = library_name(&name) {
+        // Only a bare name can be a module of the standard library - `math/` is a folder and
+        // `/math` a file in the root.
+        if let Some(name) = library_name(path) {
             FileOrLib::Lib(name)
         } else {
             let file = if let FileOrLib::File(file) = ctx.file {
